@@ -204,13 +204,14 @@ class Walker:
         self.ev = {}
         self._memo = {}
         self._stack = []
+        self._in_task = 0      # > 0 while walking a spawned task: its yields are not the root's
 
     # state helpers
     def _apply(self, states, event):
         out = set()
         for (e1, y) in states:
             if event.kind == "E":
-                if e1 is not None and y is not None:
+                if e1 is not None and y is not None and self._in_task == 0:
                     self.eye.setdefault((e1.label, event.label), (e1, y, event))
                 # the newest effect becomes e1 as well (keeps the first for reporting stability)
                 out.add((e1 if e1 is not None else event, None if e1 is None else y))
@@ -256,6 +257,10 @@ class Walker:
             sp = spawns.get(bb)
             if sp is not None and sp.kind == "detached" and sp.task is not None:
                 labels = self.m.task_effect_label(sp.task)
+                # the order of effects and validations *inside* the task matters for "a rejected request changes nothing"
+                self._in_task += 1
+                self.run(sp.task, set(states))
+                self._in_task -= 1
                 if labels and not any(ev.label.startswith("spawn task") for ev in events.get(bb, [])):
                     states = self._apply(states, Event("E", "task{%s}" % ", ".join(sorted(set(labels))[:3]), bi.loc(bb)))
             a = awaits.get(bb)
